@@ -112,7 +112,7 @@ Theorem PlannerA_prepare_outcome : forall ord g, ord_ok ord -> graph_ok g -> str
 Proof. exact prepare_outcome. Qed.
 Print Assumptions PlannerA_prepare_outcome.
 
-(* no step requires one of its own features (the side condition under which the validation and the orchestrator agree) *)
+(* the structure of the plan is fine and no step requires one of its own features *)
 Theorem PlannerA_plan_no_self_req : forall ord g, ord_ok ord -> graph_ok g -> strict g ->
   wf_struct (plan_of ord g) = true /\ no_self_req (plan_of ord g) = true.
 Proof. intros ord g H1 H2 H3. split; [exact (plan_struct ord g H1 H2 H3) | exact (plan_no_self_req ord g H1 H2 H3)]. Qed.
@@ -130,25 +130,28 @@ Theorem PlannerA_runsim_complete : forall order p, wf_plan order p = true -> run
 Proof. exact sim_complete. Qed.
 Print Assumptions PlannerA_runsim_complete.
 
-(* accepted => well formed for the order in which the simulation starts the steps, provided the structure is fine and no
-   step requires one of its own uuids *)
-Theorem PlannerA_runsim_sound : forall p, runsim_accepts p = true -> wf_struct p = true -> no_self_req p = true ->
-  wf_plan (sim_order p) p = true.
+(* accepted => well formed for the order in which the simulation starts the steps, provided the structure is fine *)
+Theorem PlannerA_runsim_sound : forall p, runsim_accepts p = true -> wf_struct p = true -> wf_plan (sim_order p) p = true.
 Proof. exact sim_sound. Qed.
 Print Assumptions PlannerA_runsim_sound.
 
-Theorem PlannerA_runsim_accepts_iff : forall p, wf_struct p = true -> no_self_req p = true ->
+Theorem PlannerA_runsim_accepts_iff : forall p, wf_struct p = true ->
   (runsim_accepts p = true <-> exists order, wf_plan order p = true).
 Proof. exact runsim_accepts_iff. Qed.
 Print Assumptions PlannerA_runsim_accepts_iff.
 
-(* without no_self_req soundness FAILS: the validation subtracts a step's own uuids from its requirements,
-   ExecutionOrchestrator._can_run_step does not - such a plan is accepted and never runs *)
-Example PlannerA_runsim_self_req_gap :
-  runsim_accepts p_selfreq = true /\ wf_struct p_selfreq = true /\ no_self_req p_selfreq = false /\
+(* one executable predicate for every exported plan (T3): wf_struct p && runsim_accepts p *)
+Theorem PlannerA_plan_accepted_wf_iff : forall p, plan_accepted_wf p = true <-> exists order, wf_plan order p = true.
+Proof. exact plan_accepted_wf_iff. Qed.
+Print Assumptions PlannerA_plan_accepted_wf_iff.
+
+(* a step requiring one of its own uuids can never start; since /repo 7287741 the validation uses the orchestrator's start
+   condition unchanged and rejects such a plan (before, it subtracted the step's own uuids and accepted it) *)
+Example PlannerA_runsim_self_req_rejected :
+  runsim_accepts p_selfreq = false /\ wf_struct p_selfreq = true /\ no_self_req p_selfreq = false /\
   wf_plan_auto p_selfreq = false /\
   loop_head p_selfreq (run false true (fun _ => false) p_selfreq (repeat EScan 50)) = Looping.
-Proof. exact sim_self_req_gap. Qed.
+Proof. exact sim_self_req_rejected. Qed.
 
 (* well-formedness for some order is invariant under plan_equiv *)
 Theorem PlannerA_wf_exists_equiv : forall p p', plan_equiv p p' -> wf_struct p' = true ->
